@@ -100,8 +100,18 @@ pub fn programs(tier: Tier) -> ProgramSet {
                     true
                 }));
                 let label = format!("N={} enum_ci={} flags=[{}]", n, eflag, fl.join(","));
-                let (specs, ex) = enumerate(&base, &label, &devs, k, &parse_domain_overlap_ok);
+                // thorough: pairs of deviations only over the core literals (the literals added after rounds 9-11 take part as
+                // single deviations); pairs for N = 2 only, N = 3 is covered at k = 1 with the complete flag product — about 60 000 programs instead of 400 000
+                let core_lits = ["\"Kk\"", "\"ss\"", "\"i\"", "\"é\"", "\"xé\"", "\"XY\"", "\"x1\"", "\"İ\"", "\"\"", "\"ſ\""];
+                let (mut specs, ex) = enumerate(&base, &label, &devs, 1, &parse_domain_overlap_ok);
                 excluded += ex as u64;
+                if k >= 2 && n == 2 {
+                    let core: Vec<Dev> = devs.into_iter().filter(|d| !d.label.contains("={") && !d.label.contains("=\"") || core_lits.iter().any(|l| d.label.ends_with(l)) || d.label.starts_with("serialize_all=\"lowercase\"") || d.label.starts_with("serialize_all=\"SCREAMING")).filter(|d| !d.label.contains("v0.ident=") && !d.label.contains("[\"xB\"")).collect();
+                    let (more, ex2) = enumerate(&base, &label, &core, k, &parse_domain_overlap_ok);
+                    excluded += ex2 as u64;
+                    let seen: std::collections::HashSet<EnumSpec> = specs.iter().map(|e| e.spec.clone()).collect();
+                    specs.extend(more.into_iter().filter(|e| !seen.contains(&e.spec)));
+                }
                 for e in specs {
                     let source = render_parse_module(&e.spec, &derives, call);
                     let aux = overlap_aux(&e.spec);
